@@ -11,7 +11,7 @@ NET = "canopen.network:Network"
 def mknet(w, can_id=None, bus="stub", nodes=None, subs=None):
     if subs is None:
         subs = w.pdict("subs", [can_id] if can_id is not None else [], lambda tag: w.plist(tag))
-    net = w.obj(NET, bus=(w.obj("env.stubs:BusStub") if bus == "stub" else None), scanner=w.obj("env.stubs:ScannerStub"),
+    net = w.obj(NET, bus=(w.obj("env.stubs:BusStub") if bus == "stub" else bus), scanner=w.obj("env.stubs:ScannerStub"),
                 subscribers=subs, nodes=nodes if nodes is not None else w.dict({}), send_lock=w.new_lock(),
                 notifier=None, listeners=w.list([]))
     return net, subs
@@ -199,9 +199,10 @@ class PeriodicInit(Contract):
     @staticmethod
     def ok(s):
         p = s.pre
-        if not s.returned or len(s.ev) != 1 or s.ev[0][0] != "bus.send_periodic":
+        ev = [e for e in s.ev if e[0] == "bus.send_periodic"]
+        if not s.returned or len(ev) != 1 or len([e for e in s.ev if e[0] == "task.start"]) != 1:
             return False
-        _, aid, d, rem, ext, period = s.ev[0]
+        _, aid, d, rem, ext, period = ev[0]
         exp_data = S.sub(p["data"], 0, 0) if bool(p["remote"]) else p["data"]
         return And(compare("==", aid, p["can_id"]), S.eq(d, exp_data), Iff(rem, p["remote"]),
                    Iff(ext, compare(">", p["can_id"], 0x7FF)), period == 0.5)
